@@ -573,7 +573,7 @@ func run(id, tier string) int {
 	for _, s := range skippedCases {
 		fmt.Printf("UNJUDGED-CASE property=%s %s\n", id, s)
 	}
-	if int64(len(skippedCases)) > 2 && int64(len(skippedCases))*50 > merged.Cases {
+	if int64(len(skippedCases)) > 2 && int64(len(skippedCases))*4 > merged.Cases {
 		inconclusive = append(inconclusive, fmt.Sprintf("%d of %d cases could not be judged", len(skippedCases), merged.Cases))
 	}
 	if len(inconclusive) > 0 {
